@@ -1,7 +1,7 @@
 SPECIFICATION Spec
 CONSTANTS
-  MaxLen = 5
-  ViewTail = 2
+  MaxLen = 6
+  ViewTail = 1
 INVARIANT TypeOK
 INVARIANT Total
 INVARIANT PathOK
